@@ -175,6 +175,22 @@ class Sim:
     def run(self, coro, vt_budget: float = 120.0, step_budget: int = 200_000):
         return self.loop.run_task(coro, vt_budget, step_budget)
 
+    def call(self, fn, *args):
+        """Call a synchronous bumble API from inside the running loop (as an application callback would)."""
+        box: dict = {}
+
+        def runner():
+            try:
+                box['r'] = fn(*args)
+            except Exception as e:  # handed back to the caller
+                box['e'] = e
+
+        self.loop.call_soon(runner)
+        self.loop.drive(lambda: bool(box), 1.0)
+        if 'e' in box:
+            raise box['e']
+        return box.get('r')
+
     def must(self, coro, what: str = 'setup', vt_budget: float = 120.0):
         """Run a harness-side coroutine that has to succeed; otherwise HarnessError."""
         status, task = self.loop.run_task(coro, vt_budget)
@@ -380,8 +396,7 @@ class World:
                 name = f'N{i}'
                 cfg = (device_configs[i] if device_configs else None) or DeviceConfiguration()
                 rnd = ':'.join([f'F{i}'] * 6)
-                if device_configs is None or device_configs[i] is None:
-                    cfg.address = Address(rnd)
+                cfg.address = Address(rnd)
                 if classic:
                     cfg.classic_enabled = True
                 host = Host()
